@@ -9,7 +9,7 @@
    (it does not: the zeroed cache words held the call-site slot ids) and the assembly-text
    round trip are explored by the tie (hx_avbc), not proved here. *)
 From Aelys Require Import Base.Tactics Extracted.ValueConsts Extracted.AvbcLayout
-  Model.Value Model.Avbc Proofs.AvbcProofs Model.AasmTypes Extracted.AasmTable Model.Aasm Proofs.AasmProofs Extracted.AasmEscapes Model.AasmStr Proofs.AasmStrProofs.
+  Model.Value Model.Avbc Proofs.AvbcProofs Model.AasmTypes Extracted.AasmTable Model.Aasm Proofs.AasmProofs Extracted.AasmEscapes Model.AasmStr Proofs.AasmStrProofs Model.AasmTree Proofs.AasmTreeProofs.
 Local Open Scope N_scope.
 
 (* the layout the source currently has is one the reader can invert at all:
@@ -55,7 +55,7 @@ Proof. exact (conj write_truncates_lemma read_back_fails_lemma). Qed.
 Example C08_nonvacuous :
   in_types ex_top /\ wf_sizes ex_top
   /\ (exists bs, write ex_top = WOk bs /\ read true bs = ROk (normalize ex_top))
-  /\ normalize ex_top <> ex_top /\ height ex_top = 2.
+  /\ normalize ex_top <> ex_top /\ Avbc.height ex_top = 2.
 Proof. exact ex_top_ok. Qed.
 
 (* ---- the assembly text format, instruction level ----------------------------------------
@@ -101,3 +101,10 @@ Example C08_aasm_string_nonvacuous :
   escape [97; 10; 34; 92; 0; 1; 127; 133; 233; 128512] = [97; 92; 110; 92; 34; 92; 92; 92; 48; 92; 120; 48; 49; 92; 120; 55; 102; 133; 233; 128512]
   /\ unescape [97; 92; 120; 99; 50; 34] = Some ([97; 194], []).
 Proof. exact escape_examples. Qed.
+
+(* the nested-function hierarchy: the disassembler lists functions in pre-order with `.nested <count>`,
+   the assembler's stack algorithm (rebuild_hierarchy) puts back exactly the tree it came from, for every
+   tree at most 64 levels deep, whatever the functions themselves contain (KF-C08-5's repair, 68afa7f) *)
+Theorem C08_aasm_hierarchy_roundtrip : forall (A : Type) (t : tree A),
+  (AasmTree.height t <= MAX_FUNCTION_NESTING)%nat -> rebuild (flatten t) = Some (Some t).
+Proof. exact rebuild_flatten. Qed.
